@@ -60,6 +60,8 @@ def parse_history(path):
                 h['recon'].append(d)
             elif p[0] == 'DEC':
                 h['dec'].append(dict(k=int(p[1]), hash=p[4], pkt=int(p[5]) if len(p) > 5 else -1))
+                if len(p) > 6 and p[6].startswith('dsse='):
+                    h['dec'][-1]['dsse'] = [int(x) for x in p[6][5:].split(',')]
             elif p[0] == 'DECS':
                 h['decs'].append(dict(start=int(p[1]), idx=int(p[2]), hash=p[3], pkt=int(p[4])))
             elif p[0] == 'FH':
